@@ -50,6 +50,33 @@ pub enum SoupKind {
     Any,
 }
 
+/// short sequences over the vocabulary of the parsing-ambiguity guard: select / template / frameset contexts, the start
+/// tags that leave them, stray end tags, and text-mode switching elements with markup-looking content
+pub fn guard_soup(rng: &mut Rng) -> Vec<u8> {
+    const CTX: &[&str] = &[
+        "<select>", "<select>", "</select>", "<template>", "</template>", "<option>", "<optgroup>", "<input>", "<keygen>", "<textarea>", "</textarea>", "<script>", "</script>",
+        "<frameset>", "</frameset>", "<frame>", "<table>", "<td>", "<tr>", "</table>", "<caption>", "<hr>", "<SELECT>", "<Template>", "</SELECT>", "<body>", "<p>", "<div>", "</div>",
+    ];
+    const PAYLOAD: &[&str] = &["<b>x</b>", "<i>", "t", "<!--c-->", "</b>", "<a href=x>"];
+    let mut v: Vec<u8> = vec![];
+    let n = 2 + rng.below(9);
+    for _ in 0..n {
+        match rng.below(10) {
+            0..=5 => v.extend_from_slice(rng.pick(CTX).as_bytes()),
+            6 | 7 => {
+                let name = *rng.pick(TEXT_MODE_NAMES);
+                v.extend_from_slice(format!("<{name}>").as_bytes());
+                v.extend_from_slice(rng.pick(PAYLOAD).as_bytes());
+                if rng.chance(3, 4) {
+                    v.extend_from_slice(format!("</{name}>").as_bytes());
+                }
+            }
+            _ => v.extend_from_slice(rng.pick(PAYLOAD).as_bytes()),
+        }
+    }
+    v
+}
+
 fn push_tag(rng: &mut Rng, out: &mut Vec<u8>, kind: SoupKind) {
     let end = rng.chance(2, 5);
     out.push(b'<');
